@@ -11,7 +11,7 @@ class _RL(dict):
 UNIT_RLIMIT = _RL({"div_small": 80, "mul_redc": 80})      # unit -> --rlimit (Verus default is 10; 5x head-room over the measured maximum)
 UNIT_TIMEOUT = {"knuth": 1500, "addmul": 900, "mul_redc": 1200}     # unit -> seconds
 UNIT_EXPECT = {       # unit -> minimum number of verified functions on the unchanged tree (vacuity guard)
-    "core": 31, "add": 29, "kernels": 79, "addmul": 71, "addmul_n": 73, "mul": 51, "divd": 45, "div_small": 235, "knuth": 145, "mul_redc": 124, "basics": 22, "pow": 38, "divw": 54, "modular": 70, "spigot": 44, "gcd": 24, "forward": 57, "invring": 36, "bitlen": 70, "shifts": 131, "recip_table": 2, "gcdext": 67, "gcdw": 36, "bits": 78, "conv": 31, "lehmer": 37, "logs": 27, "forward_shift": 81, "fmt_consts": 5,
+    "core": 31, "add": 29, "kernels": 79, "addmul": 71, "addmul_n": 73, "mul": 51, "divd": 45, "div_small": 235, "knuth": 145, "mul_redc": 124, "basics": 22, "pow": 38, "divw": 54, "modular": 70, "spigot": 44, "gcd": 24, "forward": 57, "invring": 47, "bitlen": 70, "shifts": 131, "recip_table": 2, "gcdext": 67, "gcdw": 36, "bits": 78, "conv": 31, "lehmer": 37, "logs": 27, "forward_shift": 81, "fmt_consts": 5,
 }
 
 COMMON_TRUST = [
@@ -113,10 +113,13 @@ PROPS = {
     "C02": dict(
         level="proof",
         level_text="Verus proves, for every BITS/LIMBS, that overflowing_mul/wrapping_mul/checked_mul/saturating_mul return a*b mod 2^BITS with the flag a*b >= 2^BITS and that widening_mul "
-                   "returns the full product for every (BITS, BITS_RHS), modular over the proved contracts of addmul, addmul_n (incl. the unrolled addmul_1..4), addmul_nx1, mac and the DoubleWord helpers",
-        level_note="assumed: add_nx1's contract (Kani per length), slice-length axiom, core integer specs; NOT decided: inv_ring for BITS > 8 (Wrapping<u64> Newton block and the operator-based lifting loop are "
-                   "outside the Verus units; Kani: BITS 1, 8 (16 in thorough)), Product beyond 2 elements, the Mul/MulAssign operator impls (macro-generated forwards to wrapping_mul; checked by Kani for add/sub only)",
-        technique="deductive contracts (Verus, all widths) over the real multiplication code; Kani for inv_ring/Product at tiny widths",
+                   "returns the full product for every (BITS, BITS_RHS), modular over the proved contracts of addmul, addmul_n (incl. the unrolled addmul_1..4), addmul_nx1, mac and the DoubleWord helpers; "
+                   "inv_ring returns None exactly for BITS = 0 or an even value and otherwise the inverse modulo 2^BITS, for every width: the word-level Newton block (seed correct modulo 16, four doubling steps, the "
+                   "debug assertion) and the limb-doubling lifting loop (Hensel step modulo 2^min(2p, BITS)); the Mul/MulAssign operator impls forward to wrapping_mul (unit forward)",
+        level_note="assumed: add_nx1's contract (Kani per length), slice-length axiom, core integer specs, Uint::from(2), operator contracts on Uint inside inv_ring's loop (* - *=: unit forward + proved methods). "
+                   "Declared rewrites in inv_ring: the core::num::Wrapping<u64> newtype is erased (Wrapping(x) -> x, .0 -> identity, * and - on such values -> wrapping_mul / wrapping_sub: the definition of Wrapping's "
+                   "operators). NOT decided: iterator Product beyond 2 elements (Kani)",
+        technique="deductive contracts (Verus, all widths) over the real multiplication code; Kani for Product and as counterexample source at tiny widths",
         units=["core", "basics", "kernels", "addmul", "addmul_n", "mul", "invring", "forward"],
         kani=dict(
             features=None,
@@ -127,7 +130,7 @@ PROPS = {
         ),
         explanation="the property's sentences about products are postconditions of the Uint methods over val(); every function between them and the u128 multiply is under contract",
         trusted=COMMON_TRUST,
-        not_decided=["inv_ring above 16 bits", "iterator Product beyond 2 elements", "Mul/MulAssign operator shapes (forwarding only)"],
+        not_decided=["iterator Product beyond 2 elements"],
     ),
     "C05": dict(
         level="proof",
